@@ -21,5 +21,6 @@ CONSTANTS
   BugPadCredit = FALSE
   EncodeAtEnqueue = FALSE
   BugZeroCostHeld = FALSE
+  SplitOnlyAtEnqueue = FALSE
 CONSTRAINT Emit
 CHECK_DEADLOCK FALSE
